@@ -484,17 +484,3 @@ Arguments find_edges {D}. Arguments find_edge {D}. Arguments distance {D}. Argum
 Arguments used_optimized {D}. Arguments find_edges_internal {D}. Arguments sort_unique {D}.
 Arguments r_less {D}. Arguments r_eqb {D}.
 
-(** ** Instances used by the correspondence: float64 chord angles *)
-Definition fmin_ops : dist_ops float :=
-  mkOps float PrimFloat.ltb PrimFloat.sub 0%float infinity PrimFloat.eqb.
-(** maxDistance: less is >, sub is +, zero() = StraightChordAngle = 4, infinity() = NegativeChordAngle = -1 *)
-Definition fmax_ops : dist_ops float :=
-  mkOps float (fun a b => PrimFloat.ltb b a) PrimFloat.add 4%float (-1)%float PrimFloat.eqb.
-
-(** distance tables dumped by the harness: exact targets answer "d < limit ? d" *)
-Fixpoint lookup_e {A} (tbl : list (eid * A)) (e : eid) (d : A) : A :=
-  match tbl with [] => d | (k, v) :: t => if eid_eqb k e then v else lookup_e t e d end.
-Fixpoint lookup_z {A} (tbl : list (Z * A)) (c : Z) (d : A) : A :=
-  match tbl with [] => d | (k, v) :: t => if k =? c then v else lookup_z t c d end.
-Definition table_upd {K} (look : K -> float) (ops : dist_ops float) (k : K) (lim : float) : option float :=
-  let d := look k in if d_less ops d lim then Some d else None.
